@@ -97,7 +97,8 @@ def cases(tier, seed):
                                 continue      # a detached interpolant has no derivative: documented exclusion
                             evs = ["none"]
                             if fn == "solve" and iscall and ik == 0:
-                                evs = ["none", "E"]
+                                # tinyB: right-hand side of size 1e-9 (not zero); EM: E and M, 3 columns
+                                evs = ["none", "E", "tinyB", "EM"]
                             for ev in evs:
                                 c = {"part": "method", "functional": fn, "method": m, "opts": opts, "order": order,
                                      "kind": k, "vseed": plane}
@@ -136,6 +137,10 @@ def _scen(cfg):
     kw = {}
     if cfg["functional"] == "solve":
         kw["withE"] = cfg.get("E", "none") == "E"
+        if cfg.get("E") == "tinyB":
+            kw["bscale"] = 1e-9
+        if cfg.get("E") == "EM":
+            kw["withM"] = True
     return S.make(cfg["functional"], cfg.get("kind"), cfg.get("vseed", 0), **kw)
 
 
